@@ -29,6 +29,20 @@ def execute(case, extra_monitors=(), exc_allow=(), replay=None, phases=(),
     r = Run()
     holder = []
     from mvf import contracts
+    if case.get('warm') is not None:
+        # "a later execution in the same engine process": the same
+        # definitions are first run with other input / outcomes in a world
+        # of their own; the database is wiped afterwards, the engine's
+        # in-memory caches are kept (same seeded definition ids => the
+        # cached specification objects are reused by the run under test).
+        wc = dict(case)
+        wc.pop('warm')
+        wc.pop('keep_spec_cache', None)
+        wc.update(case['warm'])
+        wr = execute(wc, max_steps=max_steps)
+        r.warm_inconclusive = wr.inconclusive
+        case = dict(case, keep_spec_cache=True)
+        case.pop('warm')
     contracts.drain()
     w = world_mod.World(case, replay=replay,
                         max_steps=max_steps or case.get('max_steps', 3000))
